@@ -287,3 +287,31 @@ def c16_format(prog):
             probs.append(f"optional parts: {sid2}")
     out.append(GroundOb("C16.sess.format[boundaries]", not probs, "; ".join(probs), backend="ground"))
     return out
+
+
+def c08_failed_avp(prog):
+    """C08.failedavp[Class]: for every typed Request class, the answer class produced by to_answer() either declares a
+    failed_avp attribute (then a 5005 answer can carry Failed-AVP) or it does not (then the node's assignment of
+    err.failed_avp is only an extra python attribute): the ground row records which, and checks that assigning it
+    and encoding the answer does not raise."""
+    base, cmds, classes = _all_message_classes()
+    gen = real("diameter.message.avp.grouped")
+    avp = real("diameter.message.avp.avp")
+    out = []
+    for cls in classes:
+        if not cls.__name__.endswith("Request"):
+            continue
+        probs = []
+        try:
+            req = cls()
+            ans = req.to_answer()
+            ans.result_code = 5005
+            ans.failed_avp = gen.FailedAvp(additional_avps=[avp.Avp.new(263)])
+            provides = any(d.attr_name == "failed_avp" for d in getattr(ans, "avp_def", ()))
+            data = ans.as_bytes()
+            if provides and bytes.fromhex("00000107") not in data:
+                probs.append("Failed-AVP declared but the missing AVP is not in the encoded answer")
+        except Exception as e:
+            probs.append(f"raises {e!r}")
+        out.append(GroundOb(f"C08.failedavp[{cls.__name__}]", not probs, "; ".join(probs)))
+    return out
